@@ -90,7 +90,7 @@ func staleKey(key []byte, ver uint64) string { return fmt.Sprintf("%x@%d", key, 
 // knownStale reports whether serving version ver of key is the listed finding
 // gc-old-version-resurfaces (never in Strict mode).
 func (in *Interp) knownStale(key []byte, ver uint64) bool {
-	return !in.Strict && in.stale[staleKey(key, ver)]
+	return !in.Strict && !in.StrictStale && in.stale[staleKey(key, ver)]
 }
 
 type heldIter struct {
@@ -145,7 +145,8 @@ type Interp struct {
 	step         int
 	thr0         int64
 	// Strict disables every known-finding exclusion (used by the known-finding witness tests).
-	Strict bool
+	Strict      bool
+	StrictStale bool // development aid: only the gc-old-version-resurfaces exclusion is off
 	// stale holds (key, version) pairs that were present in the tree below a newer version of
 	// the same key when a value log GC rewrite succeeded: the rewrite may have re-inserted them
 	// above the newer versions (known finding gc-old-version-resurfaces).
@@ -1078,6 +1079,17 @@ func (in *Interp) reconcileAfterReopen() error {
 }
 
 func (in *Interp) doClock(op Op) {
+	// An iterator evaluates expiry when it parses an entry (partly ahead of time, while
+	// prefetching), so what a half-consumed iterator yields after the clock moved depends on how
+	// far it had read ahead. Held iterators are therefore closed before the clock advances.
+	for _, ts := range in.txns {
+		if ts != nil {
+			for _, h := range ts.iters {
+				h.it.Close()
+			}
+			ts.iters = nil
+		}
+	}
 	d := op.A
 	if d <= 0 {
 		d = 1
